@@ -9,6 +9,8 @@ use std::time::{Duration, Instant};
 
 #[derive(Clone, Debug, Serialize)]
 pub struct Violation {
+    /// configuration of the exploration part that found it (enough to rebuild the model)
+    pub context: Value,
     pub kind: String,
     /// id of the recorded finding whose signature this violation matches, if any
     pub finding: Option<String>,
@@ -29,7 +31,11 @@ pub struct Out {
     pub distinct: HashSet<u64>,
     pub outcomes: HashSet<u64>,
     cur_history: Value,
+    pub part_ctx: Value,
 }
+
+/// In replay mode only violations with exactly this history are kept.
+pub static REPLAY_TARGET: std::sync::OnceLock<Value> = std::sync::OnceLock::new();
 
 pub const MAX_KEPT_PER_KIND: u64 = 3;
 
@@ -48,6 +54,7 @@ impl Out {
         let c = self.violation_counts.entry(key.clone()).or_insert(0);
         *c += 1;
         let v = Violation {
+            context: self.part_ctx.clone(),
             kind: kind.to_string(),
             finding: finding.map(|s| s.to_string()),
             history: self.cur_history.clone(),
@@ -57,6 +64,12 @@ impl Out {
     }
     /// Keeps at most MAX_KEPT_PER_KIND violations per (kind, finding): the shortest histories.
     fn keep(&mut self, v: Violation) {
+        if let Some(t) = REPLAY_TARGET.get() {
+            if v.history == *t {
+                self.violations.push(v);
+            }
+            return;
+        }
         let hl = |x: &Violation| x.history.as_array().map(|a| a.len()).unwrap_or(0);
         let same: Vec<usize> = self
             .violations
@@ -115,6 +128,10 @@ pub trait Model: Sync {
     /// (complete logical state, monitor state and remaining budgets). None = no merging.
     fn key(&self, _s: &Self::S, _hist: &[Self::Ev]) -> Option<u128> {
         None
+    }
+    /// Configuration of this model, recorded with every violation for replay.
+    fn context(&self) -> Value {
+        Value::Null
     }
     /// A sample description of a finished history (observations included).
     fn sample(&self, _s: &mut Self::S, hist: &[Self::Ev]) -> Value {
@@ -260,9 +277,10 @@ pub fn explore<M: Model>(m: &M, lim: &Limits) -> Explored {
     let visited = Visited::new();
     // phase 1: prefixes up to split_depth on this thread
     let mut frontier: Vec<Vec<M::Ev>> = vec![];
+    let ctx = m.context();
     let mut w = Walker {
         m,
-        out: Out::default(),
+        out: Out { part_ctx: ctx.clone(), ..Default::default() },
         stop: &stop,
         deadline: lim.deadline,
         visited: &visited,
@@ -279,7 +297,7 @@ pub fn explore<M: Model>(m: &M, lim: &Limits) -> Explored {
             scope.spawn(|| {
                 let mut w = Walker {
                     m,
-                    out: Out::default(),
+                    out: Out { part_ctx: ctx.clone(), ..Default::default() },
                     stop: &stop,
                     deadline: lim.deadline,
                     visited: &visited,
@@ -316,7 +334,7 @@ pub fn explore<M: Model>(m: &M, lim: &Limits) -> Explored {
 
 /// Replays one history with all oracles on; returns the sink.
 pub fn replay_one<M: Model>(m: &M, hist: &[M::Ev]) -> Out {
-    let mut out = Out::default();
+    let mut out = Out { part_ctx: m.context(), ..Default::default() };
     let mut s = m.init();
     out.set_history(hist_json(&hist[..0]));
     m.check(&mut s, &hist[..0], &mut out);
